@@ -23,6 +23,7 @@ type Flight struct {
 	SentStep int
 	Dup      bool // a copy of this message was already delivered
 	HasSnap  bool
+	Seq      int // per-link send sequence number: the address used by Deliver/Drop
 }
 
 type linkKey struct{ from, to uint64 }
@@ -70,6 +71,7 @@ type Cluster struct {
 	step    int
 	seq     uint64
 	nextMsg uint64
+	linkSeq map[linkKey]int
 	trace   []Action
 	chk     *Checker
 	stats   *Stats
@@ -134,6 +136,7 @@ func NewCluster(rc RunConfig, opt Options) *Cluster {
 		nodes:   map[uint64]*Node{},
 		links:   map[linkKey][]*Flight{},
 		blocked: map[linkKey]bool{},
+		linkSeq: map[linkKey]int{},
 		stats:   newStats(),
 		digest:  Mix(rc.Seed, 0xd19e57),
 	}
@@ -567,7 +570,8 @@ func (c *Cluster) netSend(n *Node, m *pb.Message) {
 		return
 	}
 	c.nextMsg++
-	f := &Flight{ID: c.nextMsg, From: n.id, To: to, Bytes: b, Type: m.GetType(), Term: m.GetTerm(), SentStep: c.step, HasSnap: m.GetSnapshot() != nil}
+	c.linkSeq[k]++
+	f := &Flight{Seq: c.linkSeq[k], ID: c.nextMsg, From: n.id, To: to, Bytes: b, Type: m.GetType(), Term: m.GetTerm(), SentStep: c.step, HasSnap: m.GetSnapshot() != nil}
 	c.links[k] = append(c.links[k], f)
 	c.NewFlights = append(c.NewFlights, f)
 	if m.GetType() == pb.MsgSnap {
@@ -578,10 +582,19 @@ func (c *Cluster) netSend(n *Node, m *pb.Message) {
 // Link returns the in-flight messages from→to, oldest first.
 func (c *Cluster) Link(from, to uint64) []*Flight { return c.links[linkKey{from, to}] }
 
-// FlightPos finds a flight by id.
+// FlightPos finds a flight's position in its link queue (-1: gone).
 func (c *Cluster) FlightPos(f *Flight) int {
 	for i, g := range c.links[linkKey{f.From, f.To}] {
 		if g == f {
+			return i
+		}
+	}
+	return -1
+}
+
+func (c *Cluster) posBySeq(k linkKey, seq int) int {
+	for i, g := range c.links[k] {
+		if g.Seq == seq {
 			return i
 		}
 	}
@@ -600,10 +613,11 @@ func (c *Cluster) InFlight() int {
 func (c *Cluster) doDrop(a Action) bool {
 	k := linkKey{a.N, a.M}
 	l := c.links[k]
-	if a.I < 0 || a.I >= len(l) {
+	pos := c.posBySeq(k, a.I)
+	if pos < 0 {
 		return false
 	}
-	c.links[k] = append(l[:a.I:a.I], l[a.I+1:]...)
+	c.links[k] = append(l[:pos:pos], l[pos+1:]...)
 	c.stats.fault("msg_drop")
 	return true
 }
@@ -611,19 +625,20 @@ func (c *Cluster) doDrop(a Action) bool {
 func (c *Cluster) doDeliver(a Action) bool {
 	k := linkKey{a.N, a.M}
 	l := c.links[k]
-	if a.I < 0 || a.I >= len(l) {
+	pos := c.posBySeq(k, a.I)
+	if pos < 0 {
 		return false
 	}
-	f := l[a.I]
+	f := l[pos]
 	if a.B {
 		if !f.Dup {
 			f.Dup = true
 		}
 		c.stats.fault("msg_dup")
 	} else {
-		c.links[k] = append(l[:a.I:a.I], l[a.I+1:]...)
+		c.links[k] = append(l[:pos:pos], l[pos+1:]...)
 	}
-	if a.I > 0 {
+	if pos > 0 {
 		c.stats.fault("msg_reorder")
 	}
 	n := c.nodes[a.M]
@@ -1009,7 +1024,10 @@ func (c *Cluster) doCompact(n *Node, a Action) bool {
 	// The application never snapshots state that is ahead of the commit index
 	// it has written (assumption A6/A10): otherwise a crash could leave a
 	// durable snapshot above the durable commit index.
-	idx := min(n.app.cur.Index, li, n.disk.written.hs.GetCommit())
+	// Nor does it compact beyond what raft has been told is applied
+	// (storage.go: "It is the application's responsibility to not attempt to
+	// compact an index greater than raftLog.applied").
+	idx := min(n.app.cur.Index, li, n.disk.written.hs.GetCommit(), n.st.Applied)
 	if uint64(a.I) >= idx {
 		return false
 	}
